@@ -849,7 +849,15 @@ def rule_shared_reader_reset(R):
     _r(R)
 
 
+def rule_shared_prim(R):
+    """a spec-valid packet is accepted with exactly the field values sent: integers are read big-endian in stream order --
+    C09's rule"""
+    from .c09 import rule_prim as _r
+    _r(R)
+
+
 def run(R):
+    R.rule("prim", rule_shared_prim)
     R.rule("reader-reset", rule_shared_reader_reset)
     R.rule("props-iter", rule_property_cursor)
     R.rule("decode", rule_decode_variants)
